@@ -311,7 +311,7 @@ def run(ctx, chk):
     chk.check(R6, bool(init) and int_of(dict((a, b) for a, b in init[0][2]).get("inst_index")) == 0, "inst_index-starts-at-0",
               "Parser::new initialises inst_index with %s" % (show(dict((a, b) for a, b in init[0][2]).get("inst_index")) if init else "?"), raw.where("new", "Parser"))
     npos = 0
-    for fname in ("parse_inst", "parse_literal", "parse_spec_constant_op", "parse_operands"):
+    for fname in ("parse_inst",):
         ff = ctx.rspirv.fn(PAR, fname, "Parser")
         for n in walk(ff["body"]):
             if n[0] == "call" and (path_of(n[1]) or "").startswith("State::") and len(n[2]) >= 2:
@@ -322,7 +322,31 @@ def run(ctx, chk):
                     a[0] = resolve_offset_local(ff, a[0], "State::%s(" % v)
                     ok = a[0] in ("self.decoder.offset()", "(self.decoder.offset() - WORD_NUM_BYTES)", "(self.decoder.offset() - 4)") and a[1] == "self.inst_index"
                     chk.check(R6, ok, "%s:%s#%d" % (fname, v, npos), "payload %s" % a, raw.where(fname, "Parser"))
-    chk.floor(R6, "positional error sites", npos, 7)
+    chk.floor(R6, "positional error sites", npos, 3)
+    # parse_spec_constant_op: evaluated symbolically
+    from . import quantx as qx
+    ERRV = ("err", ("enum", "State::SpecConstantOpIntegerIncorrect", [("sym", "offset"), ("selffield", "inst_index")]))
+    scases = [("opcode literal does not fit 16 bits", False, True, ["IdResultType", "IdResult", "IdRef", "IdRef"], "err"),
+              ("unknown opcode number", True, False, ["IdRef"], "err"),
+              ("IAdd-like nested opcode", True, True, ["IdResultType", "IdResult", "IdRef", "IdRef"], "ok"),
+              ("nested opcode with a context dependent literal", True, True, ["IdResultType", "IdResult", "LiteralContextDependentNumber"], "err"),
+              ("nested opcode with switch pairs", True, True, ["IdRef", "IdRef", "PairLiteralIntegerIdRef"], "err"),
+              ("nested OpSpecConstantOp", True, True, ["IdResultType", "IdResult", "LiteralSpecConstantOpInteger"], "err")]
+    for name, fits, known, kinds, want in scases:
+        try:
+            r, h = qx.spec_eval(ctx, fits, known, kinds)
+        except Anchor as ex:
+            chk.bad(R6, "parse_spec_constant_op(%s)" % name, "not analysable: %s" % ex, raw.where("parse_spec_constant_op", "Parser"), key="C03:spec-shape")
+            continue
+        if want == "err":
+            good = r == ERRV
+        else:
+            n_ops = len([k for k in kinds if k not in ("IdResultType", "IdResult")])
+            good = isinstance(r, tuple) and r[0] == "ok" and r[1][0] == "list" and len(r[1][1]) == 1 + n_ops and \
+                r[1][1][0] == ("enum", "Operand::LiteralSpecConstantOpInteger", [("enum", "Op::IAdd", [])]) and \
+                [c for c in h.consumed] == [("operand", k) for k in kinds if k not in ("IdResultType", "IdResult")]
+        chk.check(R6, good, "parse_spec_constant_op(%s)" % name, "yields %s (consumed %s)" % (str(r)[:160], h.consumed), raw.where("parse_spec_constant_op", "Parser"),
+                  key="C03:spec:%s" % name)
 
     # delivery order / exactly once / stop at first error: C14's control-flow rules on Parser::parse
     from . import c14
